@@ -160,6 +160,20 @@ CLAIMED["C08"] = dict(
     tech=IRSX + "uninterpreted-function atoms + exact normal form (difference-quotient contracts), ground step-window checks; bounded native stand-in for rounding",
     ref="4 C08")
 
+CLAIMED["C14"] = dict(
+    text="PARTIAL: dubins_curve and fit_bspline's time span only. detail::dubins is executed symbolically: on every path reached by a stratified set of targets the returned "
+         "description is one of the six candidate words (identical operation DAGs of that candidate's lengths) and the path condition implies that its length R a1 + d2 + R a3 "
+         "is <= the length of each of the six candidates (z3, real arithmetic, +inf for infeasible words); dubins_curve<K>: t_max equals that length and the body velocity "
+         "inside every segment is (1, 0, +-1/R) or (1, 0, 0) (unit speed, curvature <= 1/R). fit_bspline: from the expressions extracted from fit_impl.hpp and the C13 "
+         "contracts, t_min <= t_i <= t_max for all dt > 0. That each word reaches the target (tangent-circle geometry) and global minimality are checked only by a bounded "
+         "native stand-in against an independent brute-force evaluation. Found and repaired: spurious full turn for half-turn targets. fit_spline, fit_spline_1d and "
+         "reparameterize_spline are NOT decided.",
+    note="A1; A2; A5 (arc length = radius x angle); A6 incl. z3 and must-fire extraction rules; A7 targets/radii sampled, paths discovered concolically; C12/C13 contracts used; "
+         "std::ranges::minmax assumed; sparse linear solves of fit_spline(_1d) and the LP passes of reparameterize_spline are outside the executor's reach.",
+    tech=IRSX + "structural identity + z3 implication from the compiled comparison chain (Dubins word selection), exact normal form (segment velocities), z3 over "
+         "mechanically extracted expressions (fit_bspline span); bounded native stand-in for the geometry",
+    ref="4 C14")
+
 NOT_YET = {}
 
 
